@@ -282,6 +282,8 @@ theorem handler_keeps (cfg : Sim.Cfg K) (wf : WfCfg cfg.comp) (t : K) (e : Elem)
     | rmNode _ _ => exact absurd ha (by simp [Shipped, shippedB])
     | addEdge _ _ _ => exact absurd ha (by simp [Shipped, shippedB])
     | rmEdge _ _ _ => exact absurd ha (by simp [Shipped, shippedB])
+    | adAdd _ _ _ => exact absurd ha (by simp [Shipped, shippedB])
+    | adDel _ _ => exact absurd ha (by simp [Shipped, shippedB])
 
 /-- **whole runs**: for a process whose handlers are shipped-style action scripts and whose tap only reads, loci equal
     their tracked sets after set-up and after every event of any run of either dynamics (so at every point user code can
